@@ -158,6 +158,51 @@ pub fn run(tier: &str) -> Result<Report, String> {
         rep.violations.extend(acc.bad);
     }
     rep.set("trees_per_size", json!(per_size));
+    // second pass: binder-focused tiny alphabet with a deeper node bound (two names, one unary, one
+    // binary operator) — shapes like (!{x}: @{x}: a) & (!{y}: @{x}: a) or
+    // (!{x}: 3{y}: AX {x}) & (!{y}: 3{x}: AX {x}) need 7..9 nodes
+    let tiny = {
+        let s = |v: &[&str]| v.iter().map(|x| x.to_string()).collect::<Vec<_>>();
+        TreeAlphabet { consts: vec![], props: s(&["a"]), vars: s(&["x", "y"]), wilds: vec![], doms: vec![], un: vec![Un::AX], bi: vec![Bi::And], quant: vec![Hy::Bind, Hy::Exists], jump: true }
+    };
+    let t_max = if tier == "quick" { 8 } else { 9 };
+    let mut g2 = TreeGen::new(tiny.clone());
+    let mut per_size2 = vec![];
+    for size in (s_max + 1)..=t_max {
+        let acc = g2.par_visit_exact(
+            size,
+            Acc::default,
+            |acc, t| {
+                thread_local! { static CTX2: SymbolicContext = context(); }
+                acc.n += 1;
+                if t.scope_ok(&mut vec![], &network_props()) {
+                    acc.accepted += 1;
+                }
+                if let Some(what) = CTX2.with(|ctx| check(t, ctx)) {
+                    acc.nbad += 1;
+                    if acc.bad.len() < 10 {
+                        acc.bad.push(Violation { case: json!({"kind": "prep", "tree": t}), what: format!("input {}: {what}", t.render()), size: t.size() });
+                    }
+                }
+            },
+            |mut a, b| {
+                a.n += b.n;
+                a.accepted += b.accepted;
+                a.nbad += b.nbad;
+                a.bad.extend(b.bad);
+                a
+            },
+        );
+        per_size2.push(json!({"nodes": size, "trees": acc.n, "accepted_by_scope_rules": acc.accepted}));
+        rep.evaluations += acc.n;
+        rep.distinct_nontrivial += acc.accepted;
+        rep.add_count("failing_trees", acc.nbad);
+        let mut bad = acc.bad;
+        bad.sort_by_key(|v| v.size);
+        rep.violations.extend(bad.into_iter().take(15));
+    }
+    rep.set("tiny_alphabet_trees_per_size", json!(per_size2));
+    rep.set("tiny_alphabet", json!(tiny.describe()));
     // hand-picked shapes beyond the node bound: names equal to the internal ones in permuted order
     let special = [
         "!{xx}: !{x}: !{xxx}: (@{x}: {xx}) & (@{xxx}: {x})",
@@ -182,6 +227,6 @@ pub fn run(tier: &str) -> Result<Report, String> {
     }
     rep.sample(json!({"input": "(!{xx}: (3{x}: (@{xx}: {x})))", "expected_output": "(!{x}: (3{xx}: (@{x}: {xx})))"}));
     rep.sample(json!({"input": "(!{x}: (@{y}: a))", "expected": "Err (jump target y is free)"}));
-    rep.rule = format!("every tree with 1..{s_max} nodes over {} printed, parsed by the library and preprocessed against a network with variables a,b: accepted iff the independent scope checker accepts; output must equal the tree renamed by nesting depth, be de-Bruijn-equal to the input, have #quantified names = nesting depth = collect_unique_hctl_vars, consistent stored text, and be a fixed point of preprocessing; plus {} longer hand-written shapes; distinct_nontrivial = number of distinct accepted (well-scoped) trees", alpha.describe(), special.len());
+    rep.rule = format!("every tree with 1..{s_max} nodes over {} printed, parsed by the library and preprocessed against a network with variables a,b: accepted iff the independent scope checker accepts; output must equal the tree renamed by nesting depth, be de-Bruijn-equal to the input, have #quantified names = nesting depth = collect_unique_hctl_vars, consistent stored text, and be a fixed point of preprocessing; then every tree with up to 8 (thorough 9) nodes over the binder-focused tiny alphabet {{a, x, y, AX, &, !, 3, @}}; plus {} longer hand-written shapes; distinct_nontrivial = number of distinct accepted (well-scoped) trees", alpha.describe(), special.len());
     Ok(rep)
 }
